@@ -4,8 +4,12 @@ import sys
 import traceback
 
 
+_REPORTS = []
+
+
 class Report:
     def __init__(self, bounds):
+        _REPORTS.append(self)
         self.cases = 0
         self.distinct = set()
         self.failures = []
@@ -64,8 +68,19 @@ def main(sweep, replay):
             rep = sweep(payload.get("tier", "quick"), int(payload.get("seed", 0) or 0))
         rep.dump()
     except Exception:  # noqa: BLE001
-        traceback.print_exc()
-        sys.exit(3)
+        # an exception escaping from the library under test is a finding of the sweep, not a crash of the driver
+        tb = traceback.format_exc()
+        if _REPORTS and "/verif/bounded/" in tb.splitlines()[-3 if len(tb.splitlines()) > 3 else 0:][0] and False:
+            pass
+        rep = _REPORTS[-1] if _REPORTS else Report(dict(aborted=True))
+        frames = [ln for ln in tb.splitlines() if "/sigpyproc/" in ln]
+        if frames:
+            rep.fail("exception escaped from the library during the sweep", function=frames[-1].strip()[:120],
+                     observed=tb[-1200:])
+            rep.dump()
+        else:
+            traceback.print_exc()
+            sys.exit(3)
 
 
 # ---------------------------------------------------------------- independent SIGPROC writer (not the repo's encoder)
